@@ -437,6 +437,8 @@ func lockstep(a, b reflect.Value, path string, pairs *[]posPair) bool {
 			pa, pb := token.Pos(a.Int()), token.Pos(b.Int())
 			if pa.IsValid() && pb.IsValid() {
 				*pairs = append(*pairs, posPair{pa, pb, path})
+			} else if pa.IsValid() != pb.IsValid() {
+				c12Validity = append(c12Validity, fmt.Sprintf("%s (restored valid=%v, fresh parse valid=%v)", path, pa.IsValid(), pb.IsValid()))
 			}
 			return true
 		}
@@ -446,6 +448,38 @@ func lockstep(a, b reflect.Value, path string, pairs *[]posPair) bool {
 		return true
 	}
 }
+
+// c12Containment returns a description of the first child node whose [Pos, End] range is not inside
+// its parent's, "" if there is none. Comments and nodes without a valid position are skipped.
+func c12Containment(f *ast.File) string {
+	var stack []ast.Node
+	bad := ""
+	ast.Inspect(f, func(n ast.Node) bool {
+		if n == nil {
+			stack = stack[:len(stack)-1]
+			return true
+		}
+		switch n.(type) {
+		case *ast.Comment, *ast.CommentGroup:
+			stack = append(stack, n)
+			return true
+		}
+		if len(stack) > 0 && bad == "" {
+			p := stack[len(stack)-1]
+			if _, isFile := p.(*ast.File); !isFile && p.Pos().IsValid() && p.End().IsValid() && n.Pos().IsValid() && n.End().IsValid() {
+				if n.Pos() < p.Pos() || n.End() > p.End() {
+					bad = fmt.Sprintf("%s.%s %s [%d,%d] lies outside its parent %s [%d,%d]", astTypeName(p), astTypeName(n), "child", n.Pos(), n.End(), astTypeName(p), p.Pos(), p.End())
+				}
+			}
+		}
+		stack = append(stack, n)
+		return true
+	})
+	return bad
+}
+
+// c12Validity collects, during one lockstep walk, position fields that are set on one side only.
+var c12Validity []string
 
 // c12Stats counts, per worker, how far the comparison with a fresh parse got (flushed by runC12).
 var c12Stats = map[string]int64{}
@@ -613,11 +647,17 @@ func c12Check(cs c12Case) core.Outcome {
 			continue // arbitrary decorations may print text that does not parse; nothing to compare with
 		}
 		var pairs []posPair
+		c12Validity = nil
 		if !lockstep(reflect.ValueOf(r.f), reflect.ValueOf(fresh), "File", &pairs) {
 			stat("restored ast and fresh parse differ in structure (no order comparison)")
 			continue
 		}
 		stat("files whose position order was compared with a fresh parse")
+		// a node's children lie inside the node (Pos/End as go/ast computes them from the restored position
+		// fields): what position reporting and tools like astutil.PathEnclosingInterval rely on
+		if bad := c12Containment(r.f); bad != "" {
+			return fail("child-outside-parent:"+strings.SplitN(bad, " ", 2)[0], "file %d: %s\nprinted:\n%s", fi, bad, b1.String())
+		}
 		var rc, fc []*ast.Comment
 		for _, g := range r.f.Comments {
 			rc = append(rc, g.List...)
